@@ -189,7 +189,7 @@ def search(ctx):
             elif i % 9 == 2:
                 # channels labelled by NUMBERS (a wavelength list labels the channels by the wavelengths themselves), scatterer
                 # properties per channel keyed by those numbers, in any unit of length (nanometres ... metres)
-                unit = float(rng.choice([1.0, 1e3, 1e-6, 1e-3, 1e-9 * 1e6, 2.0 ** -20]))
+                unit = [1e-6, 1.0, 1e3, 1e-6, 1e-3, 2.0 ** -20][(i // 9) % 6]      # metres in every run: absolute tolerances hide there
                 nch = int(rng.integers(2, 4))
                 wls = [float(w) * unit for w in rng.permutation([0.405, 0.488, 0.532, 0.66, 0.78])[:nch]]
                 nidx = [float(rng.uniform(1.45, 1.65)) for _ in wls]
